@@ -2,7 +2,9 @@
 from __future__ import annotations
 
 import base64
+import binascii
 import quopri
+import re
 from abc import abstractmethod, ABCMeta
 from email.headerregistry import ContentTransferEncodingHeader
 
@@ -95,5 +97,12 @@ class _Base64Decoder(MessageDecoder):
 
     def decode(self, body: MessageBody) -> Writeable:
         raw = bytes(body)
-        ret = base64.b64decode(raw)
+        try:
+            ret = base64.b64decode(raw)
+        except binascii.Error:
+            # damaged or truncated data, decode the characters that are there
+            data = re.sub(rb'[^A-Za-z0-9+/]', b'', raw)
+            if len(data) % 4 == 1:
+                data = data[:-1]
+            ret = base64.b64decode(data + b'=' * (-len(data) % 4))
         return Writeable.wrap(ret)
